@@ -159,6 +159,33 @@ WAVE6_NOTE = {
  "C20-H": "reported on arrival as 'options not handed to the constructor', which the repaired refactoring triggered as well; C20-R1 now requires that a file with derived defaults is not the constructor's file (read from the ini values)",
  "C08-I": "reported on arrival as 'guard not found', which the repaired refactoring (flags taken at entry) triggered as well; C08-R1/R6 are decided over which arguments are None (32 cases) and name the rejected valid definition",
 }
+# wave 8 (ids *-P performance change with a slip, *-Q feature / robustness addition with a slip, *-R idiom modernisation
+# with a slip; each has a correct twin seeded/_refactor/*-{P,Q,R}ok.patch or seeded/_open/): what the checker of commit
+# 695b07c reported when the changes arrived
+WAVE8 = json.load(open(os.path.join(HERE, "tools", "wave8_arrival.json"))) if os.path.exists(os.path.join(HERE, "tools", "wave8_arrival.json")) else {}
+WAVE8_NOTE = {
+ "C01-Q": "missed by every check; C12-R9 added (no in-place numpy operation on a view of a log table)",
+ "C09-P": "missed by every check; C12-R1 now requires the duplicate look-up to scan all filled rows ([: Xn + 1]); the ValueError of the demonstration is the consequence",
+ "C12-P": "missed by every check; C12-R1 now requires the duplicate look-up to scan all filled rows ([: Xn + 1])",
+ "C19-Q": "missed by every check; C19-R3 now forbids item stores past the checking setter anywhere in the result class",
+ "C20-P": "missed by every check; the alias policy now follows astype(copy=False)",
+ "C13-P": "reported on arrival by C04 only, through an alarm the correct version raised too; C13-R1 now requires the stall statistic to use the current self.fval / self.fsd (a copy taken before the incumbent could move is reported as stale)",
+ "C04-P": "reported on arrival by C19 only, through an alarm the correct version raised too; C19-R2 decides the coherence of the cached self.x with self.u by must-dataflow",
+ "C08-P": "reported on arrival only through an alarm the correct version raised too; C08-R7 now requires a guard that says all 2D bounds are infinite before the effective bounds may equal the hard bounds",
+ "C08-R": "reported on arrival only through an alarm the correct version raised too; C08-R3 now follows ufunc out= stores",
+ "C10-Q": "reported on arrival together with six other checks that lost the run method behind the try wrapper (the correct version alarmed too); the wrapper is unwrapped, C10-R3 accepts straight-line re-raising handlers and reports the rebuilt exception",
+ "C13-R": "reported on arrival by rules that lost the noise-mode test behind the property (the correct version alarmed too); new read-only properties are expanded, C13-R6 / C05-R9 name the construction-time flag",
+ "C07-P": "still missed: a module-level cache whose key leaves out the seed; the checker reports the shared mutable cache of the correct version as well (open false alarm), it cannot judge key completeness",
+ "C07-Q": "still missed: RNG state restored before the final samples (ordering of a new feature's two statements)",
+ "C10-R": "still missed: list comprehension for generator changes the evaluation order of the validity predicates (TypeError for None)",
+ "C14-Q": "still missed: extra disjunct in the poll-loop condition of a new option",
+ "C16-P": "still missed: cached distance matrix not shrunk with the training set (IndexError in the third retry)",
+ "C16-Q": "still missed: new per-iteration statistic recorded at iteration -1 (ValueError during the initial training)",
+ "C16-R": "still missed: np.size(None) == 1 reaches len(None)",
+ "C18-P": "still missed: stale cached search bounds (>= for ==)",
+ "C18-Q": "still missed: off-by-one in the step count of a new annealing option",
+ "C20-Q": "missed by every check; C20-R2 now requires the membership test on the key as given (a lower-cased key accepts mis-capitalised names)",
+}
 import re
 def needs_from_notes(sid):
     f = os.path.join(HERE, "seeded", sid, "NOTES.md")
@@ -166,7 +193,7 @@ def needs_from_notes(sid):
         return None
     txt = open(f, encoding="utf-8", errors="replace").read()
     letter = sid.split("-")[1]
-    if sid in WAVE6:
+    if sid in WAVE6 and letter in "HIJ":
         letter = {"H": "E", "I": "F", "J": "G"}.get(letter, letter)  # wave-6 notes are headed E / F / G
     m = re.search(r"^## Change %s\b.*?(?=^## Change [A-Z]\b|\Z)" % letter, txt, re.S | re.M)
     sec = m.group(0) if m else txt
@@ -200,7 +227,20 @@ for sid in sorted(os.listdir(os.path.join(HERE, "seeded"))):
         nt = needs_from_notes(sid)
         if nt:
             m["needs_to_manifest"] = nt
-    if sid in WAVE6:
+    if sid in WAVE8:
+        w = WAVE8[sid]
+        m["wave"] = 8
+        m["reported_on_arrival_by"] = w["reported_on_arrival_by"]
+        m["rules_on_arrival"] = w.get("rules_on_arrival", [])
+        if w["analysis_error_on_arrival"]:
+            m["analysis_error_on_arrival"] = w["analysis_error_on_arrival"]
+        m["missed_when_it_arrived"] = not w["reported_on_arrival_by"]
+        if sid in WAVE8_NOTE:
+            m["strengthening"] = WAVE8_NOTE[sid]
+        nt = needs_from_notes(sid)
+        if nt:
+            m["needs_to_manifest"] = nt
+    elif sid in WAVE6:
         w = WAVE6[sid]
         m["wave"] = 6
         m["reported_on_arrival_by"] = w["reported_on_arrival_by"]
